@@ -68,6 +68,9 @@ class C09(C01):
         # HTTP half: real HttpServer + real file handlers vs the extracted classification model
         import c09_http
         c09_http.http_checks(tier, rng, report)
+        # TID non-interference: the real transfer with and without foreign datagrams (sorted scripts)
+        import c09_tid
+        c09_tid.tid_checks(tier, rng, report)
 
 
 if __name__ == "__main__":
